@@ -41,7 +41,10 @@ pub struct Prop {
 
 /// properties whose cases may panic-abort, overflow the stack or hang: the batch runs in a child
 /// process that the parent restarts after the offending case
-fn isolated(id: &str) -> bool { matches!(id, "C05") }
+fn isolated(id: &str) -> bool { matches!(id, "C05" | "C15" | "C19") }
+/// seconds without progress after which the child is declared hung (C15 / C19: a case takes milliseconds; a deadlocked or
+/// never-returning call is part of what those properties exclude)
+fn stall_secs(id: &str) -> u64 { if id == "C05" { 120 } else { 25 } }
 
 /// parent side of the isolated mode: (re)start a child on cases[start..]; a dead child marks the case
 /// it was working on as `!crash`, a child that makes no progress for `stall_s` seconds as `!hang`
@@ -52,9 +55,12 @@ fn run_isolated(prop: &str, cases_file: &str, ncases: usize, outdir: &str, stall
     let count = |p: &str| std::fs::read_to_string(p).map(|t| t.lines().count()).unwrap_or(0);
     let append = |p: &str, line: &str| { use std::io::Write; let mut f = std::fs::OpenOptions::new().append(true).open(p).unwrap(); writeln!(f, "{}", line).unwrap(); };
     let exe = std::env::current_exe().unwrap();
+    let mut hangs = 0;
     loop {
         let start = count(&impl_path);
         if start >= ncases { break; }
+        // three hung cases are enough to report; the rest of the batch is not run (every remaining case could cost a full stall period)
+        if hangs >= 3 { for _ in start..ncases { append(&impl_path, "!hang (not run: three earlier cases of this batch hung)"); append(&meta_path, "abnormal"); } break; }
         let mut child = Command::new(&exe).args(["runrange", prop, cases_file, &start.to_string(), outdir]).stdout(Stdio::null()).stderr(Stdio::null()).spawn().unwrap();
         let mut last = start; let mut last_t = std::time::Instant::now();
         let status = loop {
@@ -72,7 +78,7 @@ fn run_isolated(prop: &str, cases_file: &str, ncases: usize, outdir: &str, stall
             Some(st) if st.success() && done >= ncases => break,
             Some(st) if st.success() => { /* child ended early without error: should not happen */ append(&impl_path, "!crash child ended early"); append(&meta_path, "abnormal"); }
             Some(st) => { append(&impl_path, &format!("!crash child died: {:?}", st)); append(&meta_path, "abnormal"); }
-            None => { append(&impl_path, &format!("!hang no progress for {} s", stall_s)); append(&meta_path, "abnormal"); }
+            None => { hangs += 1; append(&impl_path, &format!("!hang no progress for {} s", stall_s)); append(&meta_path, "abnormal"); }
         }
     }
 }
@@ -180,7 +186,7 @@ fn main() {
             let mut cf = std::io::BufWriter::new(std::fs::File::create(format!("{}/cases.txt", outdir)).unwrap());
             for c in &cases { writeln!(cf, "{}", c.show()).unwrap(); }
             drop(cf);
-            if isolated(&a[2]) { run_isolated(&a[2], &format!("{}/cases.txt", outdir), cases.len(), outdir, 120); }
+            if isolated(&a[2]) { run_isolated(&a[2], &format!("{}/cases.txt", outdir), cases.len(), outdir, stall_secs(&a[2])); }
             else { run_all(&p, &cases, outdir); }
         }
         "text" => {
@@ -198,7 +204,7 @@ fn main() {
             let txt = std::fs::read_to_string(&a[3]).unwrap();
             let cases: Vec<Sx> = txt.lines().filter(|l| !l.trim().is_empty()).map(|l| Sx::parse(l)).collect();
             std::fs::create_dir_all(&a[4]).unwrap();
-            if isolated(&a[2]) { run_isolated(&a[2], &a[3], cases.len(), &a[4], 120); } else { run_all(&p, &cases, &a[4]); }
+            if isolated(&a[2]) { run_isolated(&a[2], &a[3], cases.len(), &a[4], stall_secs(&a[2])); } else { run_all(&p, &cases, &a[4]); }
         }
         "runrange" => {
             // child of the isolated mode: append one line per case, flushed, starting at index a[4]
